@@ -327,6 +327,12 @@ def sharing_probes(rng):
     P.append(("function f(p) { p++\n p += 2\n return p }\n{ r = f($.a.cnt)\n t = f($.n)\n u = f($.l[7]) }", DOCM, None, ("scalar_copy", "doc", "missing_arg"), None))
     P.append(("function f(p, q) { q = %s\n return q }\n{ f(1)\n f($.a.b, $.a.c) }" % x, DOCM, None, ("scalar_copy", "doc", "missing_arg"), None))
     P.append(("function g(p) { return p }\n{ r = g($.a.none)\n r = %s\n v = $.a.other\n v = %s\n w = [$.zz]\n w[0] = 1 }" % (x, y), DOCM, None, ("scalar_copy", "doc", "missing_arg"), None))
+    # ... also when the missing read is RETURNED by a function and the call stands directly inside a literal or an argument list
+    P.append(("function get(o) { return o.missing }\nfunction idx(o) { return o.l[9] }\nfunction set(p) { p = %s\n return p }\n"
+              "{ a = [get($), idx($)]\n a[0] = %s\n a[1]++\n o2 = {k: get($.a)}\n o2.k = 1\n set(get($))\n set(idx($))\n set(get($.a))\n"
+              " b = [[get($)]]\n b[0][0] = 2\n c = [0]\n c.push(get($))\n c[1] = 3 }" % (x, y), DOCM, None, ("scalar_copy", "doc", "missing_arg"), None))
+    P.append(("function get(o) { return o.missing }\nfunction set(p) { p = 7\n return p }\nBEGIN { m = {\"k\": 1}\n a = [get(m)]\n a[0] = 5\n"
+              " r = set(get(m))\n print m, a, r }", None, "{\"k\": 1} [5] 7\n", ("scalar_copy", "missing_arg"), None))
     # containers are shared: element stores
     P.append(("BEGIN { a = %s\n b = a\n b[%d] = %s\n print a, b }" % (la, i, x), None, "%s %s\n" % (pa(set_(arr, i, X)), pa(set_(arr, i, X))), ("shared_store",), None))
     P.append(("BEGIN { a = %s\n b = a\n a[%d] = %s\n print a, b }" % (la, i, x), None, "%s %s\n" % (pa(set_(arr, i, X)), pa(set_(arr, i, X))), ("shared_store",), None))
